@@ -47,6 +47,11 @@ def run(repo, rep, tier):
     r4 = rep.rule('C03.R4', 'header/body agreement')
     r5 = rep.rule('C03.R5', 'typed method parameters')
     r6 = rep.rule('C03.R6', 'unrepresentable characters fail locally')
+    # the listener's responses: the entity delimited by Content-Length is
+    # the whole document (same rule as C17.R6)
+    from .c17 import content_length_rule
+    content_length_rule(rep, repo.cls('pywbem/_listener.py',
+                                      'ListenerRequestHandler'), 'C03.R7')
     D = dtdmod.load(repo)
     W = X.writers(repo)
     cons = X.constructed_elements(repo)
